@@ -696,9 +696,9 @@ class StmtMixin:
                     if isinstance(it, VRef):
                         hint = getattr(ex.heap[it.addr], 'elem_hint', None)
                         fact = getattr(ex.heap[it.addr], 'elem_fact', None)
-                    interp.assign(st.target, VSym(seqterm[i], hint=hint), fr, st)
                     if fact is not None:
                         fact(ex, seqterm[i])
+                    interp.assign(st.target, VSym(seqterm[i], hint=hint), fr, st)
                 else:
                     interp.assign(st.target, VInt(i), fr, st)
 
